@@ -25,6 +25,10 @@ func NewRng(seed uint64) *Rng { return simplan.NewRng(seed) }
 
 var debugCounters = os.Getenv("VERIF_DEBUG_CTR") != ""
 
+// VERIF_DEBUG_LIVE=1 (debugging aid): print every trace event as it is recorded
+// (a plan that never ends has no trace to print at its end).
+var debugLive = os.Getenv("VERIF_DEBUG_LIVE") != ""
+
 // Event is one simulator-visible event.
 type Event struct {
 	Seq  int    `json:"seq"`
@@ -83,6 +87,9 @@ func (r *Run) Ev(who, kind, format string, a ...interface{}) int {
 	s := r.seq
 	r.events = append(r.events, Event{Seq: s, AtMs: at, Who: who, Kind: kind, Data: d})
 	r.mu.Unlock()
+	if debugLive {
+		fmt.Fprintf(os.Stderr, "#%d %dms %s %s %s\n", s, at, who, kind, d)
+	}
 	return s
 }
 
